@@ -138,6 +138,10 @@ func (x *Exec) declare(prefix, srt string) Term {
 	}
 	n := x.S.Fresh(prefix)
 	x.emit(fmt.Sprintf("(declare-const %s %s)", n, srt))
+	if fn := "trg$" + sortTag(srt); x.ufDecl[fn] {
+		// seed the instantiation marker (see evalQuant) for program values of this sort
+		x.emit(fmt.Sprintf("(assert (%s %s))", fn, n))
+	}
 	return Term{n, srt}
 }
 
